@@ -10,7 +10,7 @@ import z3
 
 from .core import (Sym, OutsideSubset, EngineError, PyRaise, ExcVal, py_raise, binop, unop, compare, wrap, to_z3,
                    And, Or, Not, Eq, If)
-from .values import Obj, Extern, GuardedList, SymSet, SymMap, MapBox, SymArr, ModelValue, FlexDict, unflex
+from .values import Obj, Extern, GuardedList, SymSet, SymMap, MapBox, SymArr, ModelValue, FlexDict, unflex, SymBytes, Uninterp, IdSet
 from . import strings
 
 
@@ -70,6 +70,9 @@ def _as_bool(v):
 def contains(it, container, x):
     c = it.ctx
     container = unflex(container)
+    if isinstance(container, IdSet):
+        rs = [compare_values(it, '==', x, v) for v in container.items]
+        return Or(*rs) if rs else False
     if isinstance(container, GuardedList):
         return container.contains(x)
     if isinstance(container, SymSet):
@@ -251,13 +254,42 @@ def call_method(it, obj, name, args, kwargs):
         return _list_method(it, obj, name, args, kwargs)
     if isinstance(obj, MapBox):
         return _map_method(it, obj, name, args, kwargs)
+    if isinstance(obj, IdSet):
+        if name == 'add':
+            if not any(y is args[0] for y in obj.items):
+                obj.items.append(args[0])
+            return None
+        if name in ('difference_update', 'difference'):
+            other = args[0].items if isinstance(args[0], IdSet) else list(it.iterate(args[0]))
+            keep = [x for x in obj.items if not any(y is x for y in other)]
+            if name == 'difference':
+                return IdSet(keep)
+            obj.items[:] = keep
+            return None
+        if name in ('update', 'union'):
+            tgt = obj if name == 'update' else IdSet(obj.items)
+            for x in (args[0].items if isinstance(args[0], IdSet) else it.iterate(args[0])):
+                if not any(y is x for y in tgt.items):
+                    tgt.items.append(x)
+            return None if name == 'update' else tgt
+        if name == 'copy':
+            return IdSet(obj.items)
+        raise OutsideSubset("set.%s on a set with symbolic members" % name)
     if isinstance(obj, GuardedList):
         if name == 'copy':
             return GuardedList(obj.items)
         if name == '__contains__':
             return obj.contains(args[0])
     if isinstance(obj, Sym) and obj.kind == 'str':
+        if name == 'encode':
+            return SymBytes(obj, (list(args) + [kwargs.get('encoding', 'utf-8')])[0])
         return _symstr_method(it, obj, name, args, kwargs)
+    if isinstance(obj, SymBytes) and name == 'decode':
+        codec = (list(args) + [kwargs.get('encoding', 'utf-8')])[0]
+        if codec == obj.codec:
+            return obj.s
+        # e.g. s.encode('unicode_escape').decode('utf-8'): an (uninterpreted) function of the string
+        return Uninterp('recode_%s_to_%s' % (obj.codec.replace('-', ''), codec.replace('-', ''))).apply(obj.s)
     if isinstance(obj, (str, tuple, int, float, bytes, frozenset, set)):
         if all(_conc(a) for a in args) and all(_conc(v) for v in kwargs.values()):
             return _native(getattr(obj, name), *args, **kwargs)
@@ -410,15 +442,9 @@ def _map_method(it, box, name, args, kwargs):
 def _symstr_method(it, s, name, args, kwargs):
     c = it.ctx
     if name == 'split' and len(args) == 1 and isinstance(args[0], str):
-        cands = [(j, p) for j, sp, p in c.split_registry if sp == args[0]]
-        # prefer a registered structure that the path condition ENTAILS (no fork, no word equations)
-        for joined, parts in cands:
-            if z3.eq(z3.simplify(s.e), z3.simplify(joined)) or not c.feasible(s.e != joined):
-                return list(parts)
-        for joined, parts in cands:
-            if c.branch(wrap(s.e == joined)):
-                return list(parts)
-        raise OutsideSubset("split of a symbolic string with no registered structure")
+        return _split_registered(it, s, args[0], None)
+    if name == 'split' and len(args) == 2 and isinstance(args[0], str) and args[1] == 1:
+        return _split_registered(it, s, args[0], 1)
     if name == 'startswith' and len(args) == 1:
         a = args[0]
         if isinstance(a, tuple):
@@ -436,6 +462,22 @@ def _symstr_method(it, s, name, args, kwargs):
     if name == 'replace' and len(args) == 2 and hasattr(z3, 'ReplaceAll'):
         raise OutsideSubset("str.replace on a flat symbolic string (use the structured-string domain)")
     raise OutsideSubset("str.%s on a symbolic string" % name)
+
+
+def _split_registered(it, s, sep, maxsplit):
+    """split of a symbolic string whose structure (parts joined by sep) was registered by the contract.
+    split(sep): every part is assumed sep-free (registered constraint); split(sep, 1): two registered parts, the
+    first sep-free."""
+    c = it.ctx
+    cands = [(j, p) for j, sp, p in c.split_registry if sp == sep and (maxsplit is None or len(p) == 2)]
+    se = z3.simplify(s.e)
+    for joined, parts in cands:
+        if z3.eq(se, z3.simplify(joined)) or not c.feasible(s.e != joined):
+            return list(parts)
+    for joined, parts in cands:
+        if c.branch(wrap(s.e == joined)):
+            return list(parts)
+    raise OutsideSubset("split of a symbolic string with no registered structure")
 
 
 def _str_method_symargs(it, s, name, args, kwargs):
@@ -462,6 +504,8 @@ def _str_method_symargs(it, s, name, args, kwargs):
 
 # ------------------------------------------------------------------------------ builtins
 def b_len(it, v):
+    if isinstance(v, IdSet):
+        return len(v.items)
     if isinstance(v, GuardedList):
         return v.length()
     if isinstance(v, SymArr):
@@ -521,6 +565,15 @@ def b_int(it, v=0, *rest):
         if k == 'real':
             # truncation toward zero
             return wrap(z3.If(v.e >= 0, z3.ToInt(v.e), -z3.ToInt(-v.e)))
+        if k == 'str':
+            e = z3.simplify(v.e)
+            if z3.is_app(e) and e.decl().kind() == z3.Z3_OP_INT_TO_STR:
+                return wrap(e.arg(0))           # int(str(i)) == i  for the non-negative numerals the contracts build
+            # ASCII digit strings only (no sign / underscore / surrounding whitespace): z3 str.to_int is -1 otherwise
+            n = z3.StrToInt(v.e)
+            if it.ctx.branch(wrap(n >= 0)):
+                return wrap(n)
+            py_raise(ValueError, "invalid literal for int()")
         raise OutsideSubset("int() of symbolic %s" % k)
     if isinstance(v, (ModelValue, Obj)):
         py_raise(TypeError, "int() argument")
@@ -653,7 +706,11 @@ def b_dict(it, *args, **kwargs):
 def b_set(it, v=()):
     items = it.iterate(v)
     if not all(_conc(x) for x in items):
-        raise OutsideSubset("set() of symbolic members")
+        out = []
+        for x in items:
+            if not any(y is x for y in out):
+                out.append(x)
+        return IdSet(out)
     return set(items)
 
 
@@ -792,6 +849,18 @@ def b_path_join(it, a, *ps):
 
 
 def b_print(it, *a, **k):
+    f = k.get('file')
+    if f is None:
+        return None
+    sep, end = k.get('sep', ' '), k.get('end', '\n')
+    sep = ' ' if sep is None else sep
+    end = '\n' if end is None else end
+    w = it.getattr(f, 'write')
+    for i, x in enumerate(a):          # CPython: write(str(arg)), write(sep) between arguments, then write(end)
+        if i:
+            it.call_value(w, [sep], {})
+        it.call_value(w, [x if isinstance(x, (str, Sym)) else b_str(it, x)], {})
+    it.call_value(w, [end], {})
     return None
 
 
